@@ -73,6 +73,21 @@ directly accepts what forward accepts and raises what forward raises).  A USER-D
 GlobalSoftAttention (``user_dot_class``) is attended with on its own and wrapped: the multi-head = composition
 predicate calls the very module the MultiHeadedAttention holds, whatever its class.
 
+MODULE LIFE CYCLE (improvement round g, seeded change C20-g1): every call belongs to the life of ONE module
+object (field ``life``, drawn from the case's own seed in every stream, enumerated in ``_lifecycle_cases``).  The
+case's call -- the one the Lean model and all predicates judge -- is made under one of {train, eval} x {grad,
+no_grad, inference_mode}; now and then the object has a PAST: it held other parameters, was called with the very
+tensor objects of the case's call (other contents now and then), and was then given the case's parameters by
+load_state_dict / in-place copy_ / .data / reset_parameters + load_state_dict / load_state_dict(assign=True) /
+rebinding the attributes, the arguments their contents in place / through .data / through a numpy alias (the last
+two do not move the version counter); and a FUTURE: parameters changed (in place, .data, load_state_dict,
+assign=True, reset_parameters, an SGD step, rebinding, requires_grad_(False)), arguments edited in place, a second
+module object called with the same tensors -- each followed by a call with the SAME tensor objects.  Every call of
+the past and the future must return what a freshly constructed module returns that was given the current
+parameters (state_dict) and fresh copies of the current contents (``C20.lifecycle``); results returned earlier
+must still be what they were at the end (no shared output buffers); ``C20.mode`` compares all six combinations on
+the same tensor objects.  The model is stateless: it is given the parameters and contents of the case's call.
+
 Correspondence: (a) every element of the broadcast batch (query vector, list of keys, list of
 values, keep flags) goes to the Lean model (``attend`` / ``mhaForwardH``), which also evaluates
 the declarative spec (``attendSpec`` / ``mhaSpecH``); (b) the raw arguments of the call go to the
@@ -89,7 +104,8 @@ output; multi: every head's output, observed with a forward hook), weights (capt
 positions, blindness (masked keys/values replaced by random finite values: ordinary, 1e3, 1e30, and
 keys of +-finfo.max/2 whose scores overflow to inf / nan before they are masked), permutation
 invariance, implicit broadcasting == explicit expansion, no mask == all-true mask, the call does not
-depend on grad mode / training flag and does not write to its arguments, multi-head == composition of
+depend on grad mode / training flag (all six combinations) and does not write to its arguments, it does not
+depend on what the module object was called with or held before, multi-head == composition of
 the module's own projections with the wrapped single-head attention per head, constructor defaults.
 """
 import contextlib
@@ -762,6 +778,159 @@ def invoke(mod, call, q, k, v, mask):
     return f(q, k, v, mask)
 
 
+# ---- module life cycle ---------------------------------------------------------------------------------
+# One module OBJECT lives through several calls: under {train, eval} x {grad, no_grad, inference_mode}, with the
+# same tensor objects passed again, with its parameters changed between the calls (in place, through .data, by
+# load_state_dict, reset_parameters, an optimiser step, by rebinding the attribute), with the inputs edited in
+# place between the calls (ordinary in-place operations, through .data or a numpy alias: the last two do not move
+# the tensor's version counter), with the results of earlier calls still held.  The property speaks about ONE
+# call with the module's CURRENT parameters and the arguments' CURRENT contents: every call of the life is
+# judged as the call of a freshly constructed module that was given the current parameters (state_dict) and
+# fresh copies of the current contents.
+LIFE_MODES = ("train", "eval")
+LIFE_GRADS = ("no_grad", "grad", "inference")
+PRE_SET_HOWS = ("load_state_dict", "copy_", "data", "reset+load", "assign", "rebind")
+PARAM_HOWS = ("inplace", "data", "load_state_dict", "assign", "reset_parameters", "sgd", "rebind", "freeze")
+INPUT_HOWS = ("inplace", "data", "numpy")
+LEGACY_LIFE = {"mode": "train", "grad": "no_grad"}   # how every call was made before this round
+
+
+def grad_ctx(name):
+    import torch
+    return {"grad": torch.enable_grad, "no_grad": torch.no_grad, "inference": torch.inference_mode}[name]()
+
+
+def life_call(mod, case, mode, grad, q, k, v, mask):
+    """one call of the module's life, spelled like the case's call, in the given training mode / grad context;
+    the module is left in the case's own mode"""
+    mod.train(mode == "train")
+    try:
+        with grad_ctx(grad):
+            return invoke(mod, case.get("call"), q, k, v, mask)
+    finally:
+        mod.train((case.get("life") or LEGACY_LIFE)["mode"] == "train")
+
+
+def own_parameters(mod):
+    """(owner module, attribute name, parameter) of every parameter of the module tree"""
+    return [(m_, n, p) for m_ in mod.modules() for n, p in list(m_._parameters.items()) if p is not None]
+
+
+def fresh_module(case, params, mod):
+    """A freshly CONSTRUCTED module (the case's own constructor spelling) that is given the current parameters of
+    `mod` through a copy of its state_dict: what every call of the life is judged against."""
+    import copy
+    if case["kind"] == "single":
+        new = make_single(params, case["Q"], case["K"], case["dim"], _tdtype(case), case_spelling(case, "inner"))
+    else:
+        new = make_multi(case, params)
+    new.load_state_dict(copy.deepcopy(mod.state_dict()))
+    return new
+
+
+def fresh_copies(q, k, v, mask):
+    """new tensor objects with the current contents (value IS key stays so)"""
+    kc = k.clone()
+    return q.clone(), kc, kc if v is k else v.clone(), None if mask is None else mask.clone()
+
+
+def edit_tensor(x, how, seq_axis=None):
+    """Change the contents of `x` IN PLACE, keeping sizes / finiteness / "at least one kept position": floats and
+    signed integers are negated, unsigned ones xor-ed with 1, a bool value tensor inverted, a mask (seq_axis
+    given) reversed along the sequence axis.  `how`: an ordinary in-place operation (moves the version counter),
+    through `.data`, or through a numpy array that shares the memory (neither moves it).  -> what was done"""
+    import torch
+    if how == "numpy":
+        try:
+            arr = x.numpy()
+        except (TypeError, RuntimeError):
+            how = "data"   # bfloat16 has no numpy dtype
+    tgt = x.data if how == "data" else x
+    if seq_axis is not None:
+        new = x.flip(seq_axis).clone()
+    elif x.dtype == torch.bool:
+        new = ~x
+    elif x.dtype == torch.uint8:
+        new = x ^ 1
+    else:
+        new = -x
+    if how == "numpy":
+        arr[...] = new.numpy()
+    else:
+        tgt.copy_(new)
+    return how
+
+
+def mask_seq_axis(case, k, mask):
+    """the axis of the mask that is the sequence axis of the key (masks are aligned at the last axis)"""
+    i = case["dim"] if case["dim"] >= 0 else case["dim"] + k.dim()
+    return i - (k.dim() - 1 - mask.dim())
+
+
+def change_parameters(mod, how, case, q, k, v, mask, rng):
+    """Change the parameters of the module object (every one of them) -> description, or None when there is
+    nothing to change (the dot-product flavour on its own has no parameters)."""
+    import torch
+    ps = own_parameters(mod)
+    if not ps:
+        return None
+    a, b = rng.choice([(-0.5, 0.25), (0.75, -0.5), (-1.0, 0.0), (0.5, 1.0)])
+    if how == "freeze":
+        for _, _, p in ps:
+            p.requires_grad_(False)
+        return "requires_grad_(False) on every parameter (values unchanged)"
+    if how == "reset_parameters":
+        torch.manual_seed(case["seed"] & 0xFFFF)
+        mod.reset_parameters()
+        return "reset_parameters()"
+    if how == "sgd":
+        for _, _, p in ps:
+            p.requires_grad_(True)
+        opt = torch.optim.SGD([p for _, _, p in ps], lr=0.125)
+        with torch.enable_grad():
+            o = mod(q, k, v, mask)
+            o.to(torch.float64).sum().backward() if o.dtype.is_floating_point else None
+        opt.step()
+        opt.zero_grad(set_to_none=True)
+        return "one SGD step on the sum of the outputs"
+    with torch.no_grad():
+        if how == "inplace":
+            for _, _, p in ps:
+                p.mul_(a).add_(b)
+            return f"every parameter p.mul_({a}).add_({b}) in place"
+        if how == "data":
+            for _, _, p in ps:
+                p.data.mul_(a).add_(b)
+            return f"every parameter p.data.mul_({a}).add_({b})"
+        if how == "rebind":
+            for m_, n, p in ps:
+                setattr(m_, n, torch.nn.Parameter(p.detach() * a + b, requires_grad=p.requires_grad))
+            return f"every parameter attribute rebound to a new Parameter ({a} p + {b})"
+        sd = {n: (t * a + b if t.dtype.is_floating_point else t) for n, t in mod.state_dict().items()}
+        mod.load_state_dict(sd, assign=(how == "assign"))
+        return f"load_state_dict({a} p + {b}{', assign=True' if how == 'assign' else ''})"
+
+
+def restore_parameters(mod, target, how, case):
+    """the pre-history ends: the module object is given the case's parameters (`target`: name -> tensor, the
+    exact values), by one of the ways a parameter can be set"""
+    import torch
+    with torch.no_grad():
+        if how in ("load_state_dict", "reset+load", "assign"):
+            if how == "reset+load":
+                torch.manual_seed(case["seed"] & 0xFFFF)
+                mod.reset_parameters()
+            mod.load_state_dict({n: t.clone() for n, t in target.items()}, assign=(how == "assign"))
+        elif how == "rebind":
+            named = dict(mod.named_parameters())
+            for m_, n, p in own_parameters(mod):
+                name = next(x for x, y in named.items() if y is p)
+                setattr(m_, n, torch.nn.Parameter(target[name].clone(), requires_grad=p.requires_grad))
+        else:
+            for n, p in mod.named_parameters():
+                (p.data if how == "data" else p).copy_(target[n])
+
+
 _USER = {}
 
 
@@ -1071,7 +1240,14 @@ class C20(PropertyCheck):
             "seed in EVERY other stream; the call with positional / keyword arguments (any order), the mask omitted "
             "instead of None, through __call__ or forward(), check_input called directly; a USER-DEFINED subclass "
             "of GlobalSoftAttention (dot score with a scale) on its own and as the wrapped module (10 % / 25 % of the "
-            "dot cases + 6 enumerated). Integer q/k/v, int/dyadic/float "
+            "dot cases + 6 enumerated). MODULE LIFE CYCLE: the case's call under {train, eval} x {grad, no_grad, "
+            "inference_mode} (drawn from the case's seed in every stream), a past in 30 % (1-2 calls with the same "
+            "tensor objects under other parameters, the case's parameters then set in one of 6 ways, the arguments "
+            "restored in place in one of 3 ways) and a future in 40 % of the cases (1-3 changes -- parameters in 8 ways, "
+            "an argument edited in place in 3 ways, a second module object -- each followed by a call with the same "
+            "tensor objects), 15 % each for T > 128; enumerated: (flavour, on its own / wrapped) x the 6 combinations "
+            "with a past, the 8 parameter changes x {eval + no_grad, one more}, the 4 arguments x 3 ways of editing. "
+            "Integer q/k/v, int/dyadic/float "
             "parameters (saturating exact ones for hidden_size 1000 in single precision). non-trivial: >= 1 masked and >= 2 kept positions in some element of the broadcast "
             "batch; distinct by the full case dict")
     assumptions = [
@@ -1106,6 +1282,13 @@ class C20(PropertyCheck):
         "back to the case tolerance (the same parameters are loaded into every module)",
         "hidden_size = 1000 in single precision uses saturating parameters (W, b multiples of 32: tanh is exactly "
         "-1 / 0 / 1; v multiples of 1/64: every score is exact), in double precision any parameters",
+        "module life cycle: the oracle for the calls before and after the case's call is a freshly constructed "
+        "module of the same library that is given a deep copy of the object's state_dict and clones of the "
+        "arguments (bit for bit, falling back to the case tolerance relative to the size of the result); lives whose "
+        "changed parameters / contents overflow (non-finite fresh result) are skipped; the parameters of the past "
+        "are -p/2 + 1/4, restored EXACTLY (copies) before the case's call; argument edits are involutions "
+        "(negation, xor 1, logical not, reversal of the mask along the sequence axis), applied twice around the "
+        "past; load_state_dict / state_dict / Parameter / optim.SGD / Tensor.numpy of torch are trusted",
         "long sequences: comparisons of outputs (with the model, between calls) use max(1e-5, (T + 2) eps32) in "
         "single precision -- the forward error bound of the two sums over T terms; larger than 1e-5 only for "
         "T > 82 (1.2e-4 at T = 1024; observed gaps of 1000 float32 cases with T >= 512 reached 0.73e-5); weights and "
@@ -1657,9 +1840,101 @@ class C20(PropertyCheck):
                     c["flags"][{"bias_WQ": "wq", "bias_WK": "wk", "bias_WV": "wv", "bias_WC": "wc"}[arg]] = False
                 yield force(c, "outer", arg, how)
 
+    # ---- module life cycle -------------------------------------------------------------------------------
+    @staticmethod
+    def _life(c):
+        """The LIFE of the module object the case's call belongs to (in place; drawn from the case's own seed, so
+        that the streams of all other fields are what they were): the training mode and the grad context of the
+        case's call; now and then a PAST (calls with the same tensor objects while the object held other
+        parameters, then the case's parameters set in one of six ways, the arguments' contents now and then
+        restored in place) and a FUTURE (parameter changes / in-place edits of the arguments, each followed by a
+        call with the same tensor objects)."""
+        if c["kind"] == "shape" or "life" in c:
+            return c
+        r = random.Random(c["seed"] ^ 0x11FE)
+        mode, grad = r.choice(LIFE_MODES), r.choice(LIFE_GRADS)
+
+        def combo():
+            return [mode, grad] if r.random() < 0.6 else [r.choice(LIFE_MODES), r.choice(LIFE_GRADS)]
+        life = {"mode": mode, "grad": grad}
+        big = c["T"] > 128 or c.get("nomodel")
+        if r.random() < (0.15 if big else 0.3):
+            life["pre"] = {"calls": [combo() for _ in range(r.choice([1, 1, 2]))], "set": r.choice(PRE_SET_HOWS),
+                           "inputs": r.choice([None, None, None] + list(INPUT_HOWS))}
+        if r.random() < (0.15 if big else 0.4):
+            post = [["call"] + combo()] if r.random() < 0.3 else []
+            for _ in range(r.randint(1, 2 if big else 3)):
+                x = r.random()
+                post.append(["params", r.choice(PARAM_HOWS)] if x < 0.55 else
+                            ["input", r.choice("qkvm"), r.choice(INPUT_HOWS)] if x < 0.85 else ["other"] + combo())
+                post.append(["call"] + combo())
+            life["post"] = post
+        c["life"] = life
+        return c
+
+    def _lifecycle_cases(self, rng, tier):
+        """MODULE LIFE CYCLE, enumerated (every flavour on its own and wrapped in MultiHeadedAttention, T >= 3, a
+        mask that removes something):
+        (a) every {train, eval} x {grad, no_grad, inference_mode}: a past of one or two calls under the same
+            combination, the case's parameters set in every one of the six ways (rotating), then the case's call, a
+            parameter change and a call with the same tensor objects;
+        (b) every way of changing the parameters (in place, .data, load_state_dict, load_state_dict(assign=True),
+            reset_parameters, an SGD step, rebinding the attribute, requires_grad_(False)) under eval + no_grad and
+            under one more combination: call, change, call, change, call;
+        (c) every argument (query, key, value, mask) edited in place in every way (in-place operation, .data, a
+            numpy alias) between two calls with the same tensor objects; a SECOND module object (other parameters)
+            called with the same tensor objects in between."""
+        combos = [(m_, g_) for m_ in LIFE_MODES for g_ in LIFE_GRADS]
+
+        def base(kind, flavour):
+            if kind == "single":
+                n = rng.choice([2, 3, 3, 4])
+                c = self._single(rng, flavour, n, rng.randint(0, n - 2), rng.random() < 0.3, tier, mask="some")
+                c.pop("kT", None)
+                c["mT"] = True
+            else:
+                flags = {k: rng.random() < 0.5 for k in ("wq", "wk", "wv", "wc")}
+                c = self._multi(rng, flavour, flags, rng.randint(2, 3), rng.random() < 0.5, tier)
+                c.update({"mask": "some", "dq": 2 if flavour == "dot" else c["dq"], "dk": 2})
+            c["T"] = max(3, c["T"])
+            return c
+        j = rng.randrange(len(PRE_SET_HOWS))
+        for kind in ("single", "multi"):
+            for flavour in FLAVOURS:
+                for mode, grad in combos:
+                    c = base(kind, flavour)
+                    j += 1
+                    c["life"] = {"mode": mode, "grad": grad,
+                                 "pre": {"calls": [[mode, grad]] * rng.choice([1, 2]),
+                                         "set": PRE_SET_HOWS[j % len(PRE_SET_HOWS)],
+                                         "inputs": rng.choice([None, None, "data", "numpy"])},
+                                 "post": [["params", rng.choice(PARAM_HOWS)], ["call", mode, grad]]}
+                    yield c
+        for j, how in enumerate(PARAM_HOWS):
+            for kind in ("single", "multi"):
+                for mode, grad in (("eval", "no_grad"), rng.choice([x for x in combos if x != ("eval", "no_grad")])):
+                    # (the dot-product flavour on its own has no parameters)
+                    flavour = rng.choice(FLAVOURS[1:] if kind == "single" else FLAVOURS)
+                    c = base(kind, flavour)
+                    c["life"] = {"mode": mode, "grad": grad,
+                                 "post": [["call", mode, grad], ["params", how], ["call", mode, grad],
+                                          ["params", rng.choice(PARAM_HOWS)], ["call", mode, grad]]}
+                    yield c
+        for j, which in enumerate("qkvm"):
+            for how in INPUT_HOWS:
+                for kind in ("single", "multi"):
+                    mode, grad = ("eval", "no_grad") if rng.random() < 0.5 else rng.choice(combos)
+                    c = base(kind, rng.choice(FLAVOURS))
+                    c["life"] = {"mode": mode, "grad": grad,
+                                 "post": [["call", mode, grad], ["input", which, how], ["call", mode, grad],
+                                          ["other", mode, grad] if how == "inplace" else
+                                          ["input", rng.choice("qkvm"), rng.choice(INPUT_HOWS)],
+                                          ["call"] + list(rng.choice(combos))]}
+                    yield c
+
     def cases(self, rng, tier):
         for c in self._cases(rng, tier):
-            yield self._spell(c)
+            yield self._life(self._spell(c))
 
     def _cases(self, rng, tier):
         reps = {"quick": 1, "thorough": 8, "search": 4}[tier]
@@ -1710,6 +1985,10 @@ class C20(PropertyCheck):
         # argument spellings: omitted / default / positional / keyword, enumerated
         for _ in range(reps):
             for c in self._spelling_cases(rng, tier):
+                yield c
+        # module life cycle: one object, many calls, parameters / arguments changed in between
+        for _ in range(reps):
+            for c in self._lifecycle_cases(rng, tier):
                 yield c
         # long sequences / long vectors
         for _ in range(2 * reps):
@@ -1824,17 +2103,31 @@ class C20(PropertyCheck):
         # the call is a pure function of its arguments: grad mode / training flag change nothing,
         # the arguments are not written to
         before = [None if x is None else x.clone() for x in (q, k, v, mask)]
+        life = case.get("life") or LEGACY_LIFE
         try:
             with torch.enable_grad():
                 qg = q.clone().requires_grad_(True) if q.dtype.is_floating_point else q.clone()
                 og = mod(qg, k, v, mask).detach()
-            mod.eval()
-            oe = mod(q, k, v, mask)
-            mod.train()
-            if not (torch.equal(og, out) and torch.equal(oe, out)):
-                fails.append(["output depends on the grad mode / the training flag", "C20.mode"])
+            if not torch.equal(og, out):
+                fails.append(["output depends on the grad mode (a query that requires a gradient, grad enabled)",
+                              "C20.mode"])
+            # the same tensor objects under every {train, eval} x {grad, no_grad, inference_mode} (long sequences:
+            # three of the six, the case's own combination always among them)
+            combos = [(m_, g_) for m_ in LIFE_MODES for g_ in LIFE_GRADS]
+            if T > 128:
+                combos = [(life["mode"], life["grad"])] + rng.sample(combos, 2)
+            for m_, g_ in combos:
+                om = life_call(mod, case, m_, g_, q, k, v, mask).detach()
+                if not torch.equal(om, out):
+                    fails.append([f"output depends on the grad mode / the training flag: module.{m_}(), {g_} "
+                                  f"differs from the case's call (module.{life['mode']}(), {life['grad']}; max "
+                                  f"|diff| = {float((om.to(torch.float64) - out.to(torch.float64)).abs().max()):.3g})",
+                                  "C20.mode"])
+                    break
         except Exception as e:  # noqa
             fails.append([f"call with grad enabled / in eval mode raised {type(e).__name__}: {e}"[:200], "C20.mode"])
+        finally:
+            mod.train(life["mode"] == "train")
         if any(b is not None and not torch.equal(a, b) for a, b in zip((q, k, v, mask), before)):
             fails.append(["the call modified one of its arguments in place", "C20.inplace"])
         # implicit broadcasting == explicit expansion
@@ -2008,6 +2301,134 @@ class C20(PropertyCheck):
                 break
         return fails
 
+    # ---- module life cycle ------------------------------------------------------------------------------
+    def _judge_call(self, case, params, mod, mode, grad, q, k, v, mask, what, tol):
+        """One call of the module's life -> (result or None, complaint or None): the result must be what a
+        FRESHLY CONSTRUCTED module with the current parameters returns on fresh copies of the current contents
+        of the arguments (bit for bit; else within the case tolerance, relative to the size of the result)."""
+        import torch
+        where = f"{what} [module.{mode}(), {grad}]"
+        try:
+            o = life_call(mod, case, mode, grad, q, k, v, mask)
+        except Exception as e:  # noqa
+            return None, f"{where} raised {type(e).__name__}: {e}"[:300]
+        with torch.no_grad():
+            ref = fresh_module(case, params, mod)(*fresh_copies(q, k, v, mask))
+            r64 = ref.to(torch.float64)
+            if not bool(torch.isfinite(r64).all()):
+                return o, None   # the changed parameters / contents overflow: outside the quantifier
+            scale = max(1.0, float(r64.abs().max())) if ref.numel() else 1.0
+            d = same_output(o.detach(), ref, scale, tol)
+        if d:
+            return o, (f"{where} differs from the call of a freshly constructed module that was given the "
+                       f"current parameters (state_dict) on fresh copies of the current arguments: {d}; "
+                       f"got {o.detach().reshape(-1).tolist()[:4]}, fresh {ref.reshape(-1).tolist()[:4]}")
+        return o, None
+
+    def _pre_history(self, case, params, mod, q, k, v, mask):
+        """THE OBJECT HAS A PAST when the case's call is made: it held OTHER parameters (and the argument tensors
+        other contents), was called with the very tensor objects of the case's call, and was then given the case's
+        parameters (load_state_dict / in-place copy_ / .data / reset_parameters + load_state_dict / assign=True /
+        rebinding the attributes) and the arguments their contents (in place / .data / numpy alias).  The case's
+        call -- the one the Lean model and every predicate judge -- comes after that.  -> complaints about the
+        calls of the past (each judged against a fresh module, see _judge_call)."""
+        import torch
+        life = case.get("life") or LEGACY_LIFE
+        mod.train(life["mode"] == "train")
+        pre = life.get("pre")
+        if not pre:
+            return []
+        fails = []
+        A, P, _ = self._dtypes(case, mod, q, k, v)
+        tol = case_tol(case, A, P)
+        target = {n: p.detach().clone() for n, p in mod.named_parameters()}
+        with torch.no_grad():
+            for p in mod.parameters():
+                p.mul_(-0.5).add_(0.25)
+        edited = []
+        if pre.get("inputs") and case.get("layout") != "expanded":
+            for name, x in (("q", q), ("k", k), ("v", v), ("m", mask)):
+                if x is None or (name == "v" and v is k):
+                    continue
+                edit_tensor(x, "inplace", mask_seq_axis(case, k, x) if name == "m" else None)
+                edited.append((name, x))
+        for n, (mode, grad) in enumerate(pre["calls"]):
+            _, d = self._judge_call(case, params, mod, mode, grad, q, k, v, mask,
+                                    f"life of one module object: call {n + 1} of its past (other parameters"
+                                    f"{', other contents of the argument tensors' if edited else ''})", tol)
+            if d:
+                fails.append([d, "C20.lifecycle"])
+                break
+        restore_parameters(mod, target, pre["set"], case)
+        for name, x in edited:
+            edit_tensor(x, pre["inputs"], mask_seq_axis(case, k, x) if name == "m" else None)
+        return fails
+
+    def _life_checks(self, case, params, mod, q, k, v, mask, held):
+        """THE LIFE GOES ON after the case's call: repeated calls with the same tensor objects under {train, eval}
+        x {grad, no_grad, inference_mode}, the parameters changed between them, the arguments edited in place
+        between them; every call judged against a fresh module (see _judge_call).  At the end every result that
+        was returned earlier (`held`: result, copy made when it was returned, label) must still be what it was:
+        results do not share memory with later calls."""
+        import torch
+        fails = []
+        life = case.get("life") or LEGACY_LIFE
+        steps = life.get("post") or []
+        rng = random.Random(case["seed"] ^ 0x11FE5)
+        A, P, _ = self._dtypes(case, mod, q, k, v)
+        tol = case_tol(case, A, P)
+        done = []
+        ncall = 0
+        for st in steps:
+            if st[0] == "call":
+                ncall += 1
+                o, d = self._judge_call(case, params, mod, st[1], st[2], q, k, v, mask,
+                                        f"life of one module object: call {ncall} after the case's call with the "
+                                        f"SAME tensor objects (since then: {'; '.join(done) or 'nothing changed'})", tol)
+                if d:
+                    fails.append([d, "C20.lifecycle"])
+                    break
+                if o is not None:
+                    held.append((o, o.detach().clone(), f"call {ncall} after the case's call"))
+            elif st[0] == "other":
+                # a SECOND module object (same construction, other parameters) is called with the same tensor
+                # objects in between: nothing is shared between module objects
+                with torch.no_grad():
+                    om = fresh_module(case, params, mod)
+                    change_parameters(om, "inplace", case, q, k, v, mask, rng)
+                _, d = self._judge_call(case, params, om, st[1], st[2], q, k, v, mask,
+                                        "life of one module object: a SECOND module object (other parameters) called "
+                                        "with the same tensor objects", tol)
+                if d:
+                    fails.append([d, "C20.lifecycle"])
+                    break
+                done.append("a second module object with other parameters called with the same tensor objects")
+            elif st[0] == "params":
+                try:
+                    desc = change_parameters(mod, st[1], case, q, k, v, mask, rng)
+                except Exception as e:  # noqa
+                    fails.append([f"life of one module object: changing the parameters ({st[1]}) raised "
+                                  f"{type(e).__name__}: {e}"[:300], "C20.lifecycle"])
+                    break
+                if desc:
+                    done.append(desc)
+            else:
+                x = {"q": q, "k": k, "v": v, "m": mask}[st[1]]
+                if x is None or case.get("layout") == "expanded":
+                    continue
+                how = edit_tensor(x, st[2], mask_seq_axis(case, k, x) if st[1] == "m" else None)
+                done.append(f"{ {'q': 'query', 'k': 'key', 'v': 'value', 'm': 'mask'}[st[1]] } edited in place "
+                            f"({ {'inplace': 'in-place operation', 'data': 'through .data', 'numpy': 'through a numpy alias'}[how] })")
+        with torch.no_grad():
+            for t, c, label in held:
+                same = t.shape == c.shape and bool(((t == c) | ((t != t) & (c != c))).all())
+                if not same:
+                    fails.append([f"life of one module object: the result of {label} changed AFTER it was returned "
+                                  f"(it shares memory with a later call): now {t.reshape(-1).tolist()[:4]}, when "
+                                  f"returned {c.reshape(-1).tolist()[:4]}", "C20.lifecycle"])
+                    break
+        return fails
+
     def _dtypes(self, case, mod, q, k, v):
         """(A, P, legal) by torch's promotion rules; for a call outside those rules that was accepted all the
         same (only a changed implementation does that) the dtypes the implementation shows"""
@@ -2026,21 +2447,29 @@ class C20(PropertyCheck):
         store = []
         if not case.get("kT", True) and not seq_carried(case, q, k, v, mask):
             return seq_axis_observation(case, mod, q, k, v, mask)
+        life = case.get("life") or LEGACY_LIFE
+        legal = not case.get("mixed") or expected_dtypes(case)[2]
         with torch.no_grad():
+            # the object's past (other parameters, calls with these very tensor objects), then the case's call
+            # in the case's training mode / grad context
+            pre_fails = self._pre_history(case, params, mod, q, k, v, mask) if legal else []
             try:
                 with capture_softmax(store):
-                    out = invoke(mod, case.get("call"), q, k, v, mask)
+                    raw = life_call(mod, case, life["mode"], life["grad"], q, k, v, mask)
             except (RuntimeError, TypeError) as exc:
-                if case.get("mixed") and not expected_dtypes(case)[2]:
+                if not legal:
                     # dtypes that torch's own operations do not combine: outside the domain of the property
                     return {"rejected": type(exc).__name__, "checks": []}
                 raise
+            out = raw.detach().clone()   # (an ordinary tensor also when the call was made in inference mode)
+            held = [(raw, out.clone(), "the case's call")]
+            store[:] = [s_.detach() for s_ in store]
             A, P, _ = self._dtypes(case, mod, q, k, v)
             e = mod.score(q, k)
             i, ET, Eb, qf, kf, vf, mf = expand_all(case, q, k, v, mask)
             obs = {"shape": list(out.shape), "checks": [], "ctor": observed_ctor(mod),
                    "dtypes": {"weights": str(e.dtype), "out": str(out.dtype)}}
-            obs["checks"] = self._property_checks(case, mod, q, k, v, mask, out, convex=True)
+            obs["checks"] = pre_fails + self._property_checks(case, mod, q, k, v, mask, out, convex=True)
             T = ET[i]
             if mf is not None and not bool(mf.all()) and list(out.shape) == Eb + [v.shape[-1]] \
                     and v.dtype.is_floating_point:
@@ -2102,6 +2531,8 @@ class C20(PropertyCheck):
                     obs["checks"].append([f"softmax output shape {list(store[0].shape)} does not broadcast to {ET}",
                                           "C20.shape"])
             obs["checks"] += self._spelling_checks(case, params, mod, q, k, v, mask, out)
+            # last (it changes the parameters and the arguments): the rest of the object's life
+            obs["checks"] += self._life_checks(case, params, mod, q, k, v, mask, held)
         return obs
 
     def _run_multi(self, case):
@@ -2121,14 +2552,22 @@ class C20(PropertyCheck):
         store, inner_io = [], []
         hook = mod.single_head_attention.register_forward_hook(
             lambda m_, a, o: inner_io.append((a, o)))
+        life = case.get("life") or LEGACY_LIFE
         with torch.no_grad():
             try:
+                pre_fails = self._pre_history(case, params, mod, q, k, v, mask)
+                del store[:], inner_io[:]   # what the calls of the past left behind
                 with capture_softmax(store):
-                    out = invoke(mod, case.get("call"), q, k, v, mask)
+                    raw = life_call(mod, case, life["mode"], life["grad"], q, k, v, mask)
             finally:
                 hook.remove()
+            out = raw.detach().clone()   # (an ordinary tensor also when the call was made in inference mode)
+            held = [(raw, out.clone(), "the case's call")]
+            store[:] = [s_.detach() for s_ in store]
+            inner_io[:] = [(tuple(x.detach() if torch.is_tensor(x) else x for x in a_), o_.detach())
+                           for a_, o_ in inner_io]
             obs["shape"] = list(out.shape)
-            obs["checks"] = self._property_checks(case, mod, q, k, v, mask, out, convex=False)
+            obs["checks"] = pre_fails + self._property_checks(case, mod, q, k, v, mask, out, convex=False)
             i, ET, Eb, qf, kf, vf, mf = expand_all(case, q, k, v, mask)
             mfull = mf if mf is not None else torch.ones(ET, dtype=torch.bool)
             # the heads: weights (softmax output, shape (E*, T, F*, H)) and head outputs
@@ -2186,6 +2625,8 @@ class C20(PropertyCheck):
                                           f"module's own single_head_attention ({type(sha).__name__}, "
                                           f"{sha.extra_repr()}), called on each head slice", "C20.multihead.compose"])
             obs["checks"] += self._spelling_checks(case, params, mod, q, k, v, mask, out)
+            # last (it changes the parameters and the arguments): the rest of the object's life
+            obs["checks"] += self._life_checks(case, params, mod, q, k, v, mask, held)
         for n, want in case["flags"].items():
             if obs["has_bias"][n] != want:
                 obs["checks"].append([f"bias on {n.upper()[0]}^{n.upper()[1]}: requested {want}, "
@@ -2513,6 +2954,25 @@ class C20(PropertyCheck):
         t.append("call:arguments=" + call.get("how", "pos") + ("" if case["mask"] == "none" or "omit" not in call.get("how", "pos")
                                                                else "(mask given)"))
         t.append("call:entry=" + call.get("entry", "call"))
+        life = case.get("life")
+        if life:
+            t.append(f"life:call=module.{life['mode']}(),{life['grad']}")
+            pre = life.get("pre")
+            t.append("life:past=" + ("none" if not pre else f"{len(pre['calls'])} call(s), parameters set by "
+                                     f"{pre['set']}, arguments " + (f"restored in place ({pre['inputs']})"
+                                                                    if pre.get("inputs") else "untouched")))
+            if pre:
+                for m_, g_ in pre["calls"]:
+                    t.append(f"life:past_call=module.{m_}(),{g_}")
+            post = life.get("post") or []
+            t.append(f"life:future={sum(1 for s_ in post if s_[0] == 'call')} call(s)")
+            for s_ in post:
+                t.append("life:future_step=" + (f"call module.{s_[1]}(),{s_[2]}" if s_[0] == "call" else
+                                                "a second module object called with the same tensors" if s_[0] == "other" else
+                                                f"parameters:{s_[1]}" if s_[0] == "params" else
+                                                f"argument {s_[1]} edited:{s_[2]}"))
+        else:
+            t.append("life:legacy (module.train(), no_grad, one call)")
         if case["kind"] == "multi":
             f = case["flags"]
             t.append("flags=" + "".join("1" if f[n] else "0" for n in ("wq", "wk", "wv", "wc")))
@@ -2578,6 +3038,38 @@ class C20(PropertyCheck):
                 c = dict(case)
                 c["call"] = {**case["call"], n: val}
                 yield c
+        # the life: towards "train, no_grad, no past, no future"; the failure must survive
+        life = case.get("life")
+        if life:
+            for key in ("pre", "post"):
+                if life.get(key):
+                    c = dict(case)
+                    c["life"] = {a: b for a, b in life.items() if a != key}
+                    yield c
+            post = life.get("post") or []
+            for j in range(len(post)):
+                c = dict(case)
+                c["life"] = {**life, "post": post[:j] + post[j + 1:]}
+                yield c
+            pre = life.get("pre")
+            if pre:
+                if len(pre["calls"]) > 1:
+                    c = dict(case)
+                    c["life"] = {**life, "pre": {**pre, "calls": pre["calls"][:1]}}
+                    yield c
+                if pre.get("inputs"):
+                    c = dict(case)
+                    c["life"] = {**life, "pre": {**pre, "inputs": None}}
+                    yield c
+                if pre["set"] != "load_state_dict":
+                    c = dict(case)
+                    c["life"] = {**life, "pre": {**pre, "set": "load_state_dict"}}
+                    yield c
+            for key, val in (("mode", "train"), ("grad", "no_grad")):
+                if life[key] != val:
+                    c = dict(case)
+                    c["life"] = {**life, key: val}
+                    yield c
         if case.get("mag") and case.get("mixed"):
             c = dict(case)  # a dtype failure rarely needs the large scores
             del c["mag"]
